@@ -79,3 +79,19 @@ reg(
     TECHNIQUE="differential runtime monitoring against an independent RFC 3986 authority reader + invariant (normal form, idempotence) and scaling monitors; exhaustive short-string enumeration",
     REQUIRED_MONITORS={"quick": {"totality": 100000, "normal_form": 20000, "idempotence": 20000, "reference_split": 20000, "scaling": 40}, "thorough": {"totality": 10**6, "reference_split": 10**5, "scaling": 40}},
 )
+
+reg(
+    "C20",
+    RULE="field lists given to encode_multipart_formdata / request_encode_body: every name/filename up to a length bound over the hostile alphabet {\" ' \\ ; CR LF CRLF = é 😀 SP -- a} in four input forms and inside a 3-field sandwich; random lists of 1-4 fields (plain, (filename,data), (filename,data,mime), RequestField with extra headers) in dict/list containers with explicit or random boundaries and hostile values (CRLF, dash runs, a look-alike delimiter of another boundary, arbitrary bytes); a case is the field list + container + boundary + entry point; non-trivial = name other than ''/'a'",
+    ASSUMPTIONS=COMMON_ASSUMPTIONS + [
+        "premise of the statement: cases whose data contains the chosen boundary delimiter are skipped (counted)",
+        "expected parameter values use forward WHATWG escaping (CR, LF, double quote percent-encoded, UTF-8); un-escaping is not attempted because it is not injective",
+        "caller-supplied MIME types and extra part headers are benign (the statement quantifies over names, filenames and values)",
+    ],
+    SHARDS={"quick": 8, "thorough": 16},
+    BUDGET={"quick": 30, "thorough": 360},
+    LEVEL_TEXT="Runtime monitoring of the encoder: every produced body is parsed back by a strict independent multipart parser and compared part by part (count, order, exact header lines, disposition parameters, byte-identical data, boundary named = boundary used), for an exhaustive hostile-name space and random field lists, through three entry points including the in-memory wire.",
+    LEVEL_NOTE="Trusts the strict multipart parser in vf/wire.py (about 60 lines) and Python's mimetypes for the default part type.",
+    TECHNIQUE="round-trip runtime monitoring with an independent strict parser (structural oracle) + forward-escaping reference",
+    REQUIRED_MONITORS={"quick": {"parse_back": 5000, "part_compare": 8000, "wire_roundtrip": 3}, "thorough": {"parse_back": 10**5, "part_compare": 10**5, "wire_roundtrip": 20}},
+)
